@@ -16,7 +16,7 @@ PROP_MODULES = {
     'C12': ['contracts.builders', 'contracts.shared_grid', 'contracts.c03_grid', 'contracts.c04_meta', 'contracts.c08_creator', 'contracts.c11_seed', 'contracts.c13_expiry', 'contracts.c05_paths', 'contracts.c12_cleanup'],
     'C11': ['contracts.builders', 'contracts.shared_grid', 'contracts.c03_grid', 'contracts.c04_meta', 'contracts.c11_seed'],
     'C15': ['contracts.builders', 'contracts.c15_async'],
-    'C14': ['contracts.builders', 'contracts.c14_merge'],
+    'C14': ['contracts.builders', 'contracts.shared_grid', 'contracts.c03_grid', 'contracts.c04_meta', 'contracts.c16_limits', 'contracts.c20_conditional', 'contracts.c14_merge', 'contracts.c10_auth'],
     'C16': ['contracts.builders', 'contracts.shared_grid', 'contracts.c03_grid', 'contracts.c04_meta', 'contracts.c16_limits'],
     'C13': ['contracts.builders', 'contracts.shared_grid', 'contracts.c03_grid', 'contracts.c04_meta', 'contracts.c08_creator', 'contracts.c08_manager', 'contracts.c13_expiry'],
     'C08': ['contracts.builders', 'contracts.shared_grid', 'contracts.c03_grid', 'contracts.c04_meta', 'contracts.c05_compact', 'contracts.c16_limits', 'contracts.c08_creator', 'contracts.c08_manager', 'contracts.c05_paths', 'contracts.c09_paths'],
